@@ -11,10 +11,18 @@ command -v $GO >/dev/null 2>&1 || GO=/opt/veriftools/go1.26.8/bin/go
 prop="$1"; tier="${2:-quick}"; shift; shift || true
 bin="bin/simcheck.$$"
 mkdir -p bin
-if ! $GO test -c -vet=off -tags verif -o "$bin" ./cmd/simcheck 2> "bin/build.$$.log"; then
+# VERIF_REPO (default /repo): the tree under test. Only used to try a change in a scratch worktree
+# without touching /repo; the registered commands never set it.
+export VERIF_REPO="${VERIF_REPO:-/repo}"
+modflag=""
+if [ "$VERIF_REPO" != "/repo" ]; then
+  sed "s#=> /repo#=> $VERIF_REPO#" go.mod > "bin/go.$$.mod"; cp go.sum "bin/go.$$.sum"
+  modflag="-modfile=bin/go.$$.mod"
+fi
+if ! $GO test -c -vet=off $modflag -tags verif -o "$bin" ./cmd/simcheck 2> "bin/build.$$.log"; then
   echo "infrastructure trouble: build failed (the tree under /repo does not compile with the verif hooks):"
   cat "bin/build.$$.log"
-  rm -f "$bin" "bin/build.$$.log"
+  rm -f "$bin" "bin/build.$$.log" "bin/go.$$.mod" "bin/go.$$.sum"
   exit 2
 fi
 rm -f "bin/build.$$.log"
@@ -34,5 +42,5 @@ case "$prop" in
 esac
 VERIF_F_BIN="$fbin" "./$bin" run "$prop" --tier "$tier" "$@"
 rc=$?
-rm -f "$bin" "$fbin"
+rm -f "$bin" "$fbin" "bin/go.$$.mod" "bin/go.$$.sum"
 exit $rc
